@@ -5,12 +5,12 @@ from __future__ import annotations
 import json
 from typing import List
 
+from harness.extract import acl as x_acl
 from harness.extract import filter as x_filter
 from harness.lib.core import TRUSTED_BASE, VERIF, Ctx, lean_lock, run_driver, shrink_ops
 from harness.rigs import filter as rig
 from harness.rigs import net as netrig
 
-MANIFEST_DISABLED = "being adapted to fix d336b0f (host NIC accepts unicast only for its own IP addresses)"
 MANIFEST = {
     "text": "Lean 4 proof of (1) element lemmas for every software layer: a disabled or absent interface receives and sends "
             "nothing; a router that is not ON ignores frames; a frame a router's list denies, or a firewall's first- or "
@@ -126,6 +126,9 @@ def _run_filter(ctx: Ctx):
 def run(ctx: Ctx):
     with lean_lock():
         ctx.extract("Filter", x_filter.emit)
+        # Props/C06 builds on C07's verdict theorems, whose Gen tables must be current as well
+        ctx.extract("Acl", x_acl.emit)
+        ctx.extract("AclMatch", x_acl.emit_match)
         ctx.prove(MODULES, exes=[EXE], clean=False, leanchecker=ctx.thorough)
     ctx.assumptions = list(TRUSTED_BASE) + [
         "C06: software above the filtering layer is an arbitrary parameter of the model; two hypotheses on it are validated by "
